@@ -666,7 +666,7 @@ class UnionUnmarshaller(AbstractUnmarshaller[UnionT], tp.Generic[UnionT]):
         sorted from most-strict initialization to least-strict.
     """
 
-    __slots__ = ("stack", "ordered_routines")
+    __slots__ = ("stack", "ordered_routines", "nullable")
 
     def __init__(self, t: type[UnionT], context: ContextT, *, var: str | None = None):
         """Constructor.
@@ -678,9 +678,7 @@ class UnionUnmarshaller(AbstractUnmarshaller[UnionT], tp.Generic[UnionT]):
         """
         super().__init__(t, context, var=var)
         self.stack = inspection.args(t, evaluate=True)
-        if inspection.isoptionaltype(t):
-            self.stack = (self.stack[-1], *self.stack[:-1])
-
+        self.nullable = inspection.isoptionaltype(t)
         self.ordered_routines = [self.context[typ] for typ in self.stack]
 
     def __call__(self, val: tp.Any) -> UnionT:
@@ -692,10 +690,13 @@ class UnionUnmarshaller(AbstractUnmarshaller[UnionT], tp.Generic[UnionT]):
         Raises:
             ValueError: If `val` cannot be unmarshalled into any member type.
         """
+        # `None` is always honored for optional unions, wherever it was declared.
+        if self.nullable and val is None:
+            return None
+
+        # Any error a member routine raises is a rejection of the input by that member.
         for routine in self.ordered_routines:
-            with contextlib.suppress(
-                ValueError, TypeError, SyntaxError, AttributeError
-            ):
+            with contextlib.suppress(Exception):
                 unmarshalled = routine(val)
                 return unmarshalled
 
